@@ -822,6 +822,34 @@ func (ev *EvalCtx) evalCall(e *Expr) (SVal, error) {
 	case "nopieces":
 		c.eng.sliceSort("Str")
 		return SVal{T: c.eng.zero("Sl.Str"), S: "Sl.Str"}, nil
+	case "lastresult", "lastarg":
+		// lastresult(f, k) / lastarg(f, k): k-th result / argument (receiver first) of the most recent call to the
+		// function or method named f made by the function under verification (exit clauses)
+		if len(e.Args) != 2 || e.Args[0].Op != "ident" || e.Args[1].Op != "int" {
+			return SVal{}, fmt.Errorf("%s(name, index)", e.Name)
+		}
+		if ev.frame == nil {
+			return SVal{}, fmt.Errorf("%s outside a function body", e.Name)
+		}
+		recs := ev.frame.calls[e.Args[0].Name]
+		k, _ := strconv.Atoi(e.Args[1].Name)
+		// the most recent call whose block lies on a path to the point of evaluation
+		var vs []Val
+		found := false
+		for i := len(recs) - 1; i >= 0; i-- {
+			if c.curBlk == nil || recs[i].blk == nil || c.blockReaches(recs[i].blk, c.curBlk) {
+				vs = recs[i].res
+				if e.Name == "lastarg" {
+					vs = recs[i].args
+				}
+				found = true
+				break
+			}
+		}
+		if !found || k < 0 || k >= len(vs) {
+			return SVal{}, fmt.Errorf("%s: no call to %s (or no such index) on a path to this point", e.Name, e.Args[0].Name)
+		}
+		return SVal{T: vs[k].T, S: vs[k].S, GT: vs[k].GT}, nil
 	case "mk":
 		// mk(pkg.Type, field values in declaration order): a struct value
 		if len(e.Args) < 1 {
